@@ -142,3 +142,17 @@ def is_result_of(func, call):
             return True
         return n.k == 'DeclRefExpr' and n['ref']['kind'] in ('var', 'parm') and n['ref']['id'] in hs
     return pred
+
+
+REACH_FLOOR = 150   # functions reachable from execv/execve on the pinned tree (155), confirmed by hand
+
+
+def checked_reach(cg, prog, floor=REACH_FLOOR):
+    """reachable set from the interposers; a count below the confirmed floor means the call graph
+    lost edges (e.g. a table or callback is no longer resolved): analysis broken, not a pass"""
+    reach = cg.reachable(entry_points(prog))
+    if len(reach) < floor and 'SNOOPY_CONF_THREAD_SAFETY_ENABLED' in prog.macros and \
+            'SNOOPY_CONF_CONFIGFILE_ENABLED' in prog.macros and 'SNOOPY_CONF_FILTERING_ENABLED' in prog.macros:
+        raise AnalysisBroken('only %d functions are reachable from the interposers (floor %d): the call graph is '
+                             'incomplete' % (len(reach), floor))
+    return reach
